@@ -319,7 +319,11 @@ class Input(object):
                     self.script_type = 'unknown'
         if self.locking_script and not self.signatures:
             ls = Script.parse_bytes(self.locking_script, is_locking=True, strict=strict)
-            self.public_hash = self.public_hash if not ls.public_hash else ls.public_hash
+            if not (ls.script_types[0] == 'p2sh' and (self.witness_type == 'p2sh-segwit' or
+                                                      self.script_type in ['p2sh_p2wpkh', 'p2sh_p2wsh'])):
+                # The hash in the P2SH script of a nested segwit output is the hash of the witness program,
+                # not the key hash or script hash the witness program commits to
+                self.public_hash = self.public_hash if not ls.public_hash else ls.public_hash
             if ls.script_types[0] in ['p2wpkh', 'p2wsh']:
                 self.witness_type = 'segwit'
         self.sigs_required = sigs_required if sigs_required else 1
